@@ -321,6 +321,84 @@ func runSess(cfg *config) {
 			d.exec(fmt.Sprintf("INSERT INTO t1 VALUES (%d, 'in %d')", i, i))
 		}
 	}, nil)
+	// scripted: what identifies a database is strings.ToLower of its name (storage/file.go) - Unicode
+	// aware, rune by rune, bytes that are no UTF-8 read as U+FFFD - and the validity checks run on that
+	// lowered name.  Each group holds spellings; every spelling is created (the first of one database
+	// succeeds, the others must say it exists), selected, given a table of its own and a row in the
+	// table of the first spelling (which is there only if the two are one database).
+	q := func(n string) string { return "\"" + n + "\"" }
+	spell := func(d *sdrv, groups [][]string) {
+		for gi, g := range groups {
+			for _, n := range g {
+				d.exec("CREATE DATABASE " + q(n))
+				d.exec("SHOW DATABASES")
+			}
+			for k, n := range g {
+				d.exec("USE " + q(n))
+				d.exec(fmt.Sprintf("CREATE TABLE g%ds%d (a int, b varchar(255))", gi, k))
+				d.exec(fmt.Sprintf("INSERT INTO g%ds0 VALUES (%d, 'spelling %d')", gi, k, k))
+			}
+			d.exec("SHOW DATABASES")
+		}
+	}
+	identity := [][]string{
+		{"É", "é"}, {"ç", "Ç"}, // an upper/lower pair outside ASCII, either one first
+		{"\u212a", "k", "K"},        // Kelvin sign lowers to ASCII k
+		{"\u0130", "i", "I"}, {"ı"}, // dotted capital I lowers to i; the dotless i is itself
+		{"ẞ", "ß"}, {"ss"}, // capital sharp s lowers to ß (3 bytes to 2), not to ss
+		{"Ǆ", "ǅ", "ǆ"}, // title case lowers too
+		{"ΟΔΟΣ", "οδοσ"}, {"οδος"},
+		{"PLAINUPPER", "plainupper", "PlainUpper"},                   // pure ASCII: the byte-wise path
+		{"\xff", "\xfe", "\ufffd", "\x80", "\xc3"},                   // one byte that is no UTF-8, alone: all are U+FFFD
+		{"a\xff", "A\xfe", "a\ufffd", "a\xc0"}, {"b\xff", "B\ufffd"}, // after distinct prefixes
+		{"\xffÉ", "\xfeé"}, {"É\xff", "é\xf8"}, // mixed with a letter that is lowered
+		{"\xed\xa0\x80", "\xe0\x9f\xbf", "\xff\xff\xff", "\ufffd\ufffd\ufffd"}, // a surrogate, an overlong form: three bytes, three U+FFFD
+		{"\xc0\xaf", "\xc1\xaf", "\ufffd\ufffd"},                               // the overlong form of '/' is no '/'
+		{"\xf4\x90\x80\x80", "\xf5\x80\x80\x80"}, {"\xf4\x8f\xbf\xbf"},         // above U+10FFFF, and U+10FFFF itself
+		{"\xe2\x84", "\ufffd\ufffd"}, {"\xe2\x84\xaa\xe2\x84", "k\xe2\x84"}, {"\xe2\x84K", "\ufffd\ufffdk"}, // a sequence cut short
+		{"\xf0\x90\x90\x80", "\xf0\x90\x90\xa8"}, {"\xf0\x90\x90", "\xf0\x90\x90\x41"}, // Deseret, 4 bytes: upper and lower; cut short
+	}
+	run(func(d *sdrv, r *hx.Rng) { spell(d, identity[:len(identity)/2]) }, nil)
+	run(func(d *sdrv, r *hx.Rng) { spell(d, identity[len(identity)/2:]) }, nil)
+	// lowering changes the length in bytes: across the limit of 255 in both directions, and at it
+	rep := strings.Repeat
+	run(func(d *sdrv, r *hx.Rng) {
+		spell(d, [][]string{
+			{rep("Ⱥ", 127)},                              // 254 bytes, lowered 381: refused
+			{rep("Ⱥ", 85), rep("ⱥ", 85)}, {rep("Ⱥ", 86)}, // 170 -> 255 accepted, 172 -> 258 refused
+			{rep("\u212a", 100), rep("k", 100)}, // 300 bytes, lowered 100: accepted, and the same as k...k
+			{rep("\u212a", 255), rep("K", 255)}, {rep("\u212a", 256)},
+			{rep("\u0130", 200), rep("i", 200)},                     // 400 -> 200
+			{rep("\xff", 85), rep("\ufffd", 85)}, {rep("\xff", 86)}, // 85 bytes -> 255, 86 -> 258
+			{rep("é", 127) + "x", rep("É", 127) + "X"}, {rep("É", 128)},
+			{rep("N", 255)}, {rep("N", 256)},
+		})
+	}, nil)
+	// the same pool in random order, some spellings before and some after a restart
+	run(func(d *sdrv, r *hx.Rng) {
+		var pool []string
+		for _, g := range identity {
+			pool = append(pool, g...)
+		}
+		pool = append(pool, rep("\u212a", 90), rep("k", 90), rep("Ⱥ", 85), rep("Ⱥ", 90), rep("\xff", 85), rep("\xfe", 86))
+		for i := len(pool) - 1; i > 0; i-- {
+			j := r.Intn(i + 1)
+			pool[i], pool[j] = pool[j], pool[i]
+		}
+		for i, n := range pool[:24] {
+			d.exec("CREATE DATABASE " + q(n))
+			d.exec("USE " + q(n))
+			d.exec(fmt.Sprintf("CREATE TABLE t%d (a int, b varchar(255))", i))
+			d.exec(fmt.Sprintf("INSERT INTO t%d VALUES (%d, 'in %d')", i, i, i))
+			if i%6 == 5 {
+				d.exec("SHOW DATABASES")
+			}
+			if i == 11 {
+				d.restart()
+			}
+		}
+		d.exec("SHOW DATABASES")
+	}, cfg.rng.Fork())
 	// scripted: names that are not one plain directory name - a path separator, the directory itself
 	// or its parent, a name no file system holds - are refused and change nothing
 	run(func(d *sdrv, r *hx.Rng) {
